@@ -301,7 +301,7 @@ func Run(r *sim.Rng, nChains, perChain int, outDir string, wCert *sim.CaseWriter
 			// signer at h1; then V settled as a non-signer (slashed first) and reported at h1 AGAIN (already indexed by now: the
 			// transaction fails); then V settled as a non-signer and reported at h2 - near the per-committee cap, which is kept in the
 			// per-block slash tracker
-			if a.n.FSM.Height() >= 3 && r.Chance(45) {
+			if a.n.FSM.Height() >= 3 && r.Chance(70) {
 				a.n.Enter()
 				if vs, e := a.n.FSM.LoadCommittee(nested, a.n.FSM.Height()-1); e == nil && len(vs.ValidatorSet.ValidatorSet) >= 4 {
 					k := 1 + r.Intn(len(vs.ValidatorSet.ValidatorSet)-1)
@@ -317,9 +317,9 @@ func Run(r *sim.Rng, nChains, perChain int, outDir string, wCert *sim.CaseWriter
 						// or: the failing transaction names (V, h2) TWICE - the first is written to the double-signer index, the second is
 						// refused and the transaction fails; the index entry must go with it, or the well-formed report of (V, h2) right
 						// behind it is refused as "already slashed" and V is never slashed for h2
-						indexedThenFailed := r.Bool()
+						indexedThenFailed := r.Chance(65)
 						if indexedThenFailed {
-							tF, _ = a.build(r, &lib.CertificateResult{SlashRecipients: &lib.SlashRecipients{DoubleSigners: []*lib.DoubleSigner{{Id: V, Heights: []uint64{uint64(h2), uint64(h2)}}}}}, a.height+1, k)
+							tF, _ = a.build(r, &lib.CertificateResult{SlashRecipients: &lib.SlashRecipients{DoubleSigners: []*lib.DoubleSigner{{Id: V, Heights: []uint64{uint64(h2)}}, {Id: V, Heights: []uint64{uint64(h2)}}}}}, a.height+1, k)
 						}
 						t3, _ := a.build(r, ds(h2), a.height+1, k)
 						if t1 != nil && tF != nil && t3 != nil {
